@@ -101,7 +101,46 @@ Definition track (m : mstate) (o : op) (ob : obs) (probes : list (option payload
   | OSetClient id c =>
       {| m_creds := m_creds m; m_clients := replace_nth (m_clients m) id c; m_redeemed := m_redeemed m; m_used_rt := m_used_rt m;
          m_dead := m_dead m; m_dead_creds := m_dead_creds m; m_prev := probes |}
-  | _ => add []
+  | OPush auth bc _ a =>
+      let c := match bc, auth with Some b, _ => b | None, Some x => x | None, None => 0 end in
+      add (map (fun k => {| ci_kind := k; ci_client := c; ci_family := base; ci_pair := None;
+                            ci_challenge := az_challenge a; ci_method := az_method a;
+                            ci_scopes := az_scopes a; ci_aud := map a_raw (az_aud a); ci_subject := "" |}) (o_minted ob))
+  | OAuthorizePAR _ uri a =>
+      match cred m uri with
+      | Some (_, pc) =>
+          add (map (fun k => {| ci_kind := k; ci_client := ci_client pc; ci_family := base; ci_pair := None;
+                                ci_challenge := if String.eqb (ci_challenge pc) "" then az_challenge a else ci_challenge pc;
+                                ci_method := if String.eqb (ci_method pc) "" then az_method a else ci_method pc;
+                                ci_scopes := az_granted a; ci_aud := map a_raw (az_gaud a); ci_subject := az_subject a |}) (o_minted ob))
+      | None => add (token_infos base (o_minted ob) 0 base [] [] "")
+      end
+  | ODeviceAuth auth _ sc au =>
+      add (map (fun k => {| ci_kind := k; ci_client := match auth with Some c => c | None => 0 end; ci_family := base; ci_pair := None;
+                            ci_challenge := ""; ci_method := ""; ci_scopes := []; ci_aud := []; ci_subject := "" |}) (o_minted ob))
+  | ODecide dev _ g ga sub =>
+      match cred m dev with
+      | Some (i, c) =>
+          if ok then
+            {| m_creds := replace_nth (m_creds m) i
+                            {| ci_kind := ci_kind c; ci_client := ci_client c; ci_family := ci_family c; ci_pair := ci_pair c;
+                               ci_challenge := ""; ci_method := ""; ci_scopes := g; ci_aud := map a_raw ga; ci_subject := sub |};
+               m_clients := m_clients m; m_redeemed := m_redeemed m; m_used_rt := m_used_rt m;
+               m_dead := m_dead m; m_dead_creds := m_dead_creds m; m_prev := probes |}
+          else add []
+      | None => add []
+      end
+  | ODevicePoll _ dev =>
+      match cred m dev with
+      | Some (i, c) =>
+          if ok then
+            let m' := add (token_infos base (o_minted ob) (ci_client c) (ci_family c) (ci_scopes c) (ci_aud c) (ci_subject c)) in
+            {| m_creds := m_creds m'; m_clients := m_clients m'; m_redeemed := i :: m_redeemed m'; m_used_rt := m_used_rt m';
+               m_dead := m_dead m'; m_dead_creds := m_dead_creds m'; m_prev := probes |}
+          else add []
+      | None => add (token_infos base (o_minted ob) 0 base [] [] "")
+      end
+  | _ => add (token_infos base (o_minted ob) 0 base [] [] "")
   end.
 
 Definition with_dead (m : mstate) (fams creds : list nat) : mstate :=
